@@ -82,11 +82,16 @@ def enum_record(rid, rnd):
     eq, twice = [], []
     for v in raws:
         try:
+            # the same underlying value parsed along different paths: as a scalar (twice), as an element of a fixed and of a
+            # null-terminated array - all of them are the same value: equal, with equal hashes (also for duplicate member values)
+            raw = v.to_bytes(size, order, signed=signed)
             a, a2 = parse(E, v), parse(E, v)
+            more = [E[2](raw + raw)[1]] + ([E[None](raw + bytes(size))[0]] if v != 0 else [])
         except Exception as e:  # noqa: BLE001 - a value that cannot be parsed at all: recorded as an unequal, unpreserved parse
             twice.append({"raw": v, "value": v + 1, "eq": False, "heq": False, "exc": f"{type(e).__name__}: {e}"[:120]})
             continue
-        twice.append({"raw": v, "value": int(a.value), "eq": bool(a == a2), "heq": hash(a) == hash(a2)})
+        twice.append({"raw": v, "value": int(a.value), "eq": bool(a == a2) and all(bool(a == x) for x in more),
+                      "heq": hash(a) == hash(a2) and all(hash(a) == hash(x) for x in more)})
         others = [("int", v, v), ("int", v + 1, v + 1)]
         try:
             others.append(("E2", v, parse(E2, v)))
